@@ -139,6 +139,8 @@ class CallMixin:
                 raise Unsupported("tuple.index")
             if isinstance(o, VIter) and f.name == "__iter__":
                 return k(st, o)
+            if isinstance(o, (VMap, VRow)) and f.name == "keys":
+                return k(st, VKeys(o))
             if isinstance(o, VDict) and f.name == "get":
                 key = args[0]
                 if isinstance(key, VStr) and key.s is not None:
@@ -310,6 +312,9 @@ class CallMixin:
                 if n not in bound or not fits(bound[n], ty):
                     ok = False
                     break
+                if n in c.consts[i] and not (isinstance(bound[n], VStr) and bound[n].s == c.consts[i][n]):
+                    ok = False
+                    break
             if ok:
                 return i
         return None
@@ -331,9 +336,9 @@ class CallMixin:
         env = {n: (coerce(v, case[n]) if n in case else v) for n, v in bound.items()}
         tag = "call[%s]@%s" % (c.qual, line)
         self.used_contracts.add(c.key)
-        pre = st.fork()
         for g, expr in c.ghost.items():
-            env[g] = self.spec_val(expr, pre, ctx, env, old=pre)
+            env[g] = self.spec_val(expr, st, ctx, env, old=st)     # defining facts of ghost terms are assumed on this path
+        pre = st.fork()
         extra = c.per_case.get(c.case_names[ci], {})
         for j, (_t, r) in enumerate(c.requires + [("", x) for x in extra.get("requires", [])]):
             self.oblige(st, "%s::requires#%d" % (tag, j), self.spec_bool(r, st, ctx, env, old=pre), line, kind="precondition")
@@ -378,8 +383,11 @@ class CallMixin:
         for s in specs:
             s = s.strip()
             kind = "field"
-            if ":" in s and s.split(":", 1)[0] in ("list", "obj", "any", "all", "cell"):
+            if ":" in s and s.split(":", 1)[0] in ("list", "obj", "any", "all", "cell", "map"):
                 kind, s = s.split(":", 1)
+            if kind == "map":           # map:Class.field  -> the whole record map
+                out.append(("map", s))
+                continue
             if kind == "any":           # any:Class.field  -> whole field array
                 cls, fname = s.split(".")
                 out.append(("keys", [kk for kk, _ in field_keys(cls, fname)]))
@@ -425,6 +433,11 @@ class CallMixin:
                         st.heap[key] = z3.Const(fresh_name("H!" + key), st.heap[key].sort())
                     else:
                         pass   # never constrained so far: lazily created later under the same initial name is unsound
+            elif loc[0] == "map":
+                for key in list(st.heap):
+                    if key.startswith("map:%s." % loc[1]):
+                        st.heap[key] = z3.Const(fresh_name("H!" + key), st.heap[key].sort())
+                st.map_epoch = fresh_name("mapepoch")
             elif loc[0] == "static":
                 cls = loc[1]
                 ref = self.class_ref(cls)
@@ -463,9 +476,12 @@ class CallMixin:
         lists = []
         objs = []
         statics = []
+        maps = []
         for loc in locs:
             if loc[0] == "keys":
                 whole.update(loc[1])
+            elif loc[0] == "map":
+                maps.append("map:%s." % loc[1])
             elif loc[0] == "list":
                 lists.append(loc[1].t)
             elif loc[0] == "obj":
@@ -480,7 +496,11 @@ class CallMixin:
             before = pre.heap.get(key)
             if before is None:
                 before = z3.Const("H0!" + key, now.sort())
-            if now.eq(before) or key in whole:
+            if now.eq(before) or key in whole or any(key.startswith(m) for m in maps):
+                continue
+            if key.startswith("map:"):
+                kk = z3.Const(fresh_name("mk"), now.sort().domain())
+                self.oblige(st, "%s::frame[%s]" % (what, key), z3.Select(now, kk) == z3.Select(before, kk), line, kind="frame")
                 continue
             o = z3.Int(fresh_name("o"))
             excl = list(by_key.get(key, [])) + objs
@@ -601,6 +621,8 @@ class CallMixin:
                 return k(st, VInt(len(x.s)))
             if isinstance(x, VObj):
                 return self.call_method(st, ctx, x, "__len__", [], {}, k, node)
+            if isinstance(x, VRow):
+                return k(st, VInt(map_row_len(st, x)))
             if isinstance(x, (VInt, VBool, VNone)):
                 return self.raise_(st, ctx, "TypeError", line)
             raise Unsupported("len of %r" % (x,))
